@@ -792,6 +792,72 @@ def r9_encoding(ctx, res):
     text_files_name_their_encoding(ctx, res)
 
 
+def _returns_element(ctx, f, expr, depth=0):
+    """is the value of `expr` an xml.etree Element (by construction or by the return annotation of the function called)?"""
+    if depth > 4 or expr is None:
+        return False
+    if isinstance(expr, ast.IfExp):
+        return _returns_element(ctx, f, expr.body, depth + 1) or _returns_element(ctx, f, expr.orelse, depth + 1)
+    if isinstance(expr, ast.Call):
+        t = norm(expr.func)
+        if t.split('.')[-1] in ('Element', 'SubElement', 'fromstring') and ('ET' in t or 'etree' in t or t in ('Element', 'SubElement')):
+            return True
+        for call, cal in ctx.cg.callees(f):
+            if call is expr:
+                return any(c.node.returns is not None and norm(c.node.returns).strip('\'"').split('.')[-1] == 'Element' for c in cal)
+    return False
+
+
+def r10_no_truth_test_of_elements(ctx, res):
+    """the writer never asks an ElementTree element for its truth: `if elem:` is "has children", not "exists" (and deprecated) -
+    a childless <ExternalLemma/> built for an external entry would be dropped by `if lemma: elem.append(lemma)`.  Every local of
+    the writer functions that is bound to an Element (ET.Element(...), a call of a function annotated `-> ET.Element`) is
+    tested with `is None` / `is not None` only."""
+    from ..pyutil import binding_sites
+    from .c03 import _writer_functions
+    writers = _writer_functions(ctx)
+    n = 0
+    for f in writers:
+        elems = set()
+        for node in walk_no_nested(f.node):
+            if isinstance(node, (ast.Assign, ast.AnnAssign)) and getattr(node, 'value', None) is not None:
+                tgts = node.targets if isinstance(node, ast.Assign) else [node.target]
+                if _returns_element(ctx, f, node.value):
+                    elems |= {t.id for t in tgts if isinstance(t, ast.Name)}
+        for nm in sorted(elems):
+            n += 1
+            key = f'element-truth:{f.qualname}:{nm}'
+            bad = []
+            for node in walk_no_nested(f.node):
+                tests = []
+                if isinstance(node, (ast.If, ast.While, ast.IfExp)):
+                    tests.append(node.test)
+                elif isinstance(node, ast.Assert):
+                    tests.append(node.test)
+                elif isinstance(node, ast.comprehension):
+                    tests.extend(node.ifs)
+                for t in tests:
+                    stack = [t]
+                    while stack:
+                        x = stack.pop()
+                        if isinstance(x, ast.BoolOp):
+                            stack.extend(x.values)
+                        elif isinstance(x, ast.UnaryOp) and isinstance(x.op, ast.Not):
+                            stack.append(x.operand)
+                        elif isinstance(x, ast.Name) and x.id == nm:
+                            bad.append(node)
+                if isinstance(node, ast.BoolOp) and not isinstance(getattr(node, '_parent', None), (ast.If, ast.While, ast.IfExp, ast.Assert, ast.BoolOp)):
+                    # `x = lemma or default`
+                    if any(isinstance(v, ast.Name) and v.id == nm for v in node.values[:-1]):
+                        bad.append(node)
+            res.inst(key, f.module.loc(f.node), f'Element-valued local; truth tests: {len(bad)}')
+            for b in bad:
+                res.find(key, f.module.loc(b), f'{f.qualname} tests the truth of `{nm}`, an ElementTree element: that is "has child elements" - an '
+                                               f'element without children (<ExternalLemma/>) counts as absent and is not written')
+    if n < 10:
+        raise AnalysisError(f'only {n} Element-valued locals found in the writer functions')
+
+
 RULES = [
     ('C02-R1', r1_tables, 40),
     ('C02-R2', r2_model_reader, 70),
@@ -802,4 +868,5 @@ RULES = [
     ('C02-R7', r7_writer_stateless, 3),
     ('C02-R8', r8_falsy_numbers_survive, 25),
     ('C02-R9', r9_encoding, 6),
+    ('C02-R10', r10_no_truth_test_of_elements, 10),
 ]
